@@ -547,6 +547,13 @@ def gen_case(rng, op=None):
     raising = rng.random() < 0.2
     if op != 'expand' and rng.random() < 0.3:
         d = _groups(rng, d, sort=False)          # section groups present in the argument of every operation
+    if rng.random() < 0.35:
+        # the argument is itself a piece of an earlier extract / split: it carries subsequence_info
+        # (a singular sub-message: clearing or rewriting the CALLER's copy is only visible then; seeded C11-3)
+        d = dict(d)
+        d['sub'] = [rng.randint(0, 20) * T + rng.choice([0, 1]), rng.randint(0, 20) * T]
+        if d['sub'] == [0, 0]:
+            d['sub'] = [T, 0]
     seqs = [d]
     alias = False
     if op in ('trim', 'extract'):
@@ -602,6 +609,8 @@ def gen_case(rng, op=None):
             seqs = [_quantized(rng, d)]
     elif op == 'transpose':
         args = [rng.randint(-30, 30), rng.choice([0, 21, 40]), rng.choice([127, 108, 80]), rng.random() < 0.7]
+        if rng.random() < 0.15:
+            args[0] = 0        # "only clamp to the range": still deletes notes, resets pitch names, trims total_time
         if raising and rng.random() < 0.5:
             d2 = dict(d)                          # ChordSymbolError: a chord symbol outside the grammar
             d2['texts'] = list(d['texts']) + [[rng.randint(0, 40) * T, 0, 'Zzz#', 1]]
@@ -640,6 +649,9 @@ def gen_case(rng, op=None):
     elif op in ('concatenate', 'merge'):
         k = rng.randint(1, 3)
         seqs = [d] + [_wfdesc(rng, max_notes=5, max_events=2) for _ in range(k - 1)]
+        for x in seqs[1:]:
+            if rng.random() < 0.4:
+                x['sub'] = [rng.randint(1, 20) * T, rng.randint(0, 20) * T]
         durs = None
         if op == 'concatenate':
             r = rng.random()
@@ -741,6 +753,12 @@ def corpus():
                      ('split_time_changes', [False]), ('split_silence', [T]), ('repeat', [40 * T, None]),
                      ('expand', []), ('remove_redundant', []), ('trim', [T, 20 * T])):
         out.append({'op': op, 'input': {'alias': False, 'args': args, 'seqs': [copy.deepcopy(unsorted)]}})
+    # arguments that are pieces of an earlier split (subsequence_info set: seeded change C11-3)
+    piece = copy.deepcopy(unsorted); piece['sub'] = [6 * T, 2 * T]
+    out.append({'op': 'shift', 'input': {'alias': False, 'args': [3 * T], 'seqs': [copy.deepcopy(piece)]}})
+    out.append({'op': 'concatenate', 'input': {'alias': False, 'args': [None],
+                                               'seqs': [copy.deepcopy(piece), copy.deepcopy(piece)]}})
+    out.append({'op': 'repeat', 'input': {'alias': False, 'args': [40 * T, None], 'seqs': [copy.deepcopy(piece)]}})
     # a drum note that ends after every pitched note (seeded change C11-2), transposed with and without deletions
     drums = {'notes': [[60, 80, 0, 4 * T, 0, 0, 0, 0, 0, 0], [67, 80, 8 * T, 12 * T, 0, 0, 0, 0, 0, 0],
                        [49, 100, 12 * T, 18 * T, 9, 0, 1, 0, 0, 0]],
@@ -748,6 +766,11 @@ def corpus():
     for args in ([2, 0, 127, True], [5, 60, 70, True], [0, 0, 127, False], [40, 0, 90, True]):
         out.append({'op': 'transpose', 'input': {'alias': False, 'args': args, 'seqs': [copy.deepcopy(drums)]}})
     out.append({'op': 'sustain', 'input': {'alias': False, 'args': [64], 'seqs': [copy.deepcopy(drums)]}})
+    # amount 0 (seeded change C11-4): a note outside the range, a pitch_name, a trailing rest, a chord symbol
+    zero = {'notes': [[30, 80, 0, 4 * T, 0, 0, 0, 0, 0, 65536 * 5], [67, 80, 8 * T, 12 * T, 0, 0, 0, 0, 0, 65536 * 7]],
+            'texts': [[0, 0, 'Am', 1]], 'total': 16 * T, 'meta': 11}
+    for args in ([0, 40, 127, True], [0, 0, 127, True], [0, 0, 127, False]):
+        out.append({'op': 'transpose', 'input': {'alias': False, 'args': args, 'seqs': [copy.deepcopy(zero)]}})
     # merge: a long sequence followed by a shorter one (fixed in /repo 0c555ce); the same object twice
     short = {'notes': [[62, 80, 0, 2 * T, 0, 0, 0, 0, 0, 0]], 'total': 2 * T, 'meta': 8}
     out.append({'op': 'merge', 'input': {'alias': False, 'args': [None], 'seqs': [copy.deepcopy(drums), short]}})
